@@ -2383,6 +2383,12 @@ class MovieExtendsHeaderBox(FullBox):
 
 @fourcc('saiz')
 class SampleAuxiliaryInformationSizesBox(FullBox):
+    def __init__(self, **kwargs):
+        if isinstance(kwargs.get('aux_info_type'), str):
+            # the JSON form of this field is a hex string
+            kwargs['aux_info_type'] = int(kwargs['aux_info_type'], 16)
+        super().__init__(**kwargs)
+
     @classmethod
     def parse(clz, src, parent, **kwargs):
         rv = FullBox.parse(src, parent, **kwargs)
@@ -2615,6 +2621,12 @@ class ProtectionSchemeTypeBox(FullBox):
 @fourcc('saio')
 class SampleAuxiliaryInformationOffsetsBox(FullBox):
     DEPENDS_UPON = {'moof', 'senc', 'tfhd'}
+
+    def __init__(self, **kwargs):
+        if isinstance(kwargs.get('aux_info_type'), str):
+            # the JSON form of this field is a hex string
+            kwargs['aux_info_type'] = int(kwargs['aux_info_type'], 16)
+        super().__init__(**kwargs)
 
     @classmethod
     def parse(clz, src, parent, **kwargs):
